@@ -8,11 +8,11 @@ connection mutex and sender lock are free afterwards)."""
 import json
 import os
 
-from props import c08
+from props import c08, rpcsync
 from vlib import tlc, gobuild
 from vlib.core import Inconclusive
 
-LEVEL = "fault_enumeration"
+LEVEL = "model_checking"
 
 
 def torn_writes(ctx):
@@ -57,6 +57,8 @@ def torn_writes(ctx):
 
 def run(ctx):
     nt, ne, st = torn_writes(ctx)
+    # design check of the implementation-shaped lock model (no deadlock, invariants, termination) + its four controls
+    st += rpcsync.design(ctx, tlc.stage(ctx, "rpc"))
     scripts, found, summ, rej, states = c08.pipeline(ctx, "RpcFault")
     states += st
     c08.report(ctx, scripts, found, summ, rej, states,
